@@ -129,8 +129,15 @@ func Generate(t *simrt.Tape) *Graph {
 	type outRef struct{ inst, idx int }
 	var avail []outRef
 	used := map[outRef]int{}
+	// instance names: fi<k>, or (one run in three) names of which some are prefixes of others, the way
+	// numbered names look past nine nodes (n1, n10, n11, n2, ...)
+	collide := t.Draw(3) == 1
+	colNames := []string{"n1", "n10", "n2", "n11", "n20", "n100"}
 	for i := 0; i < ni; i++ {
 		inst := Instance{Name: fmt.Sprintf("fi%d", i), Frag: t.Draw(nf)}
+		if collide {
+			inst.Name = colNames[i]
+		}
 		fr := g.Frags[inst.Frag]
 		for range fr.ResIn {
 			if len(avail) > 0 && t.Draw(3) != 0 {
